@@ -2,13 +2,16 @@
 from pipeline import run_pipeline
 
 TIERS = {
-    "quick": dict(mc=[("MC_RtpsLink_q.cfg", 8), ("MC_RtpsLink_q_late.cfg", 8), ("MC_RtpsLink_q_rematch.cfg", 8)], replay_limit=6000, random=dict(runs=320, events=24)),
-    "thorough": dict(mc=[("MC_RtpsLink_t.cfg", 12), ("MC_RtpsLink_t2.cfg", 12), ("MC_RtpsLink_q_late.cfg", 8), ("MC_RtpsLink_t_late.cfg", 12), ("MC_RtpsLink_q_rematch.cfg", 8)], replay_limit=60000, random=dict(runs=4000, events=40)),
+    "quick": dict(mc=[("MC_RtpsLink_q.cfg", 8), ("MC_RtpsLink_q_late.cfg", 8), ("MC_RtpsLink_q_rematch.cfg", 8),
+                    ("MC_RtpsLink_q_burst.cfg", 8), ("MC_RtpsLink_q_key.cfg", 8)], replay_limit=6000, random=dict(runs=320, events=24)),
+    "thorough": dict(mc=[("MC_RtpsLink_t.cfg", 12), ("MC_RtpsLink_t2.cfg", 12), ("MC_RtpsLink_q_late.cfg", 8), ("MC_RtpsLink_t_late.cfg", 12), ("MC_RtpsLink_q_rematch.cfg", 8),
+                       ("MC_RtpsLink_q_burst.cfg", 8), ("MC_RtpsLink_q_key.cfg", 8)], replay_limit=60000, random=dict(runs=4000, events=40)),
 }
 ASSUME = [
     "state space bounded by the constants in spec/MC_RtpsLink_*.cfg (samples, fragments, fault budget, rounds)",
     "FIFO network per direction; faults = drop / duplicate (model) plus swap-with-next (random runs); timers fired by the harness in the order heartbeat, deliver, repair, deliver",
-    "K = 3 rounds in the model, 4 in the validation of real runs (the property only says 'bounded')",
+    "K = 3 rounds in the model, 4 in the validation of real runs (the property only says 'bounded'), plus one round per full window of 256 sequence numbers written (one ACKNACK names at most 256)",
+    "an assembly buffer may be given up after 9 s (virtual clock) without a new fragment of its sample; never while fragments keep arriving",
     "writer TransientLocal reliable, reader reliable KeepAll with limits not exceeded; the reader does not request history, so samples written before the match (Pre) are owed a GAP, not data",
 ]
 
@@ -30,6 +33,19 @@ def run(pid, tier, seed, replay=None):
         if not info.get("ok"):
             log(out[-1500:]); raise ToolError("Fragmentation.tla: partition lemma failed")
         log("[mc] Fragmentation.tla: ranges partition the sample for fs 1..9, sizes up to 4*fs+3")
-    return run_pipeline(pid, tier, seed, replay, driver="link", model="RtpsLink.tla",
+    extra_vh = None
+    if replay is None:
+        # time dimension of C05 (assembly buffers age on a slow link): FragAging.tla is model checked, the schedules it
+        # explores are executed by the link driver together with the random runs (vh link random --extra)
+        from common import tlc, outdir, ToolError, log, extract_replays
+        import os
+        out, info = tlc("FragAging.tla", "MC_FragAging.cfg", os.path.join(outdir(pid), "tlc_aging"), workers=4, timeout=600)
+        if not info.get("ok"):
+            log(out[-1500:]); raise ToolError("FragAging.tla: an assembly in steady progress is discarded in the model")
+        ap = os.path.join(outdir(pid), "aging_replays.jsonl")
+        n_age, _ = extract_replays(out, ap, limit=600 if tier == "quick" else 6000, seed=seed)
+        log(f"[mc] FragAging.tla: {info['states']} distinct states, {n_age} slow-link schedules handed to the link driver")
+        extra_vh = ["--extra", ap]
+    return run_pipeline(pid, tier, seed, replay, extra_vh=extra_vh, driver="link", model="RtpsLink.tla",
                         trace_module="Trace_RtpsLink.tla", trace_cfg="Trace_RtpsLink.cfg",
                         tiers=TIERS, prefixes=(pid + "_",), assumptions=ASSUME, known_env=("KNOWN_S3",), extra_sources=extra)
